@@ -2,6 +2,7 @@ import Desert.Sexp
 import Desert.Bits
 import Desert.Compress
 import Desert.Refs
+import Desert.Own
 /-!
 Line-protocol driver: one request per line on stdin, one response per line on stdout.
 Executes the model's definitions (`enc`, `dec` through `runCtx` and `runAbs`, var-ints, …) so the
@@ -141,6 +142,19 @@ def step (env : Env) (line : String) : Env × String :=
         | some l => s!"ok {String.intercalate "," (l.map toString)}"
         | none => "err InvalidRefId")
     | none => (env, "bad-request toks")
+  | some (.atom "own" :: .atom pol :: acts) =>
+    let parse : Sexp → Option Act
+      | .atom "enter" => some .enter
+      | .atom "alloc" => some .alloc
+      | .atom "leave" => some .leave
+      | .list [.atom "store", .atom n] => n.toNat?.map Act.storeRef
+      | .list [.atom "get", .atom n] => n.toNat?.map Act.getRef
+      | _ => none
+    match acts.mapM parse with
+    | some as =>
+      let v := runOwn (pol = "bounded") OwnSt.start as
+      (env, match v with | .safe => "safe" | .rejected => "rejected" | .deadRead => "dead-read" | .badProgram => "bad-program")
+    | none => (env, "bad-request acts")
   | some (.atom "src" :: .atom h :: ops) =>
     match bytesOfHex h with
     | some b => (env, String.intercalate ";" (srcOps (Ctx.new b) (ops.filterMap fun | .atom a => some a | _ => none)))
